@@ -78,6 +78,7 @@ var UtxoValidationRules = []common.UtxoValidationRuleFunc{
 	UtxoValidatePlutusScripts,
 	UtxoValidateNativeScripts,
 	conway.UtxoValidateDelegation,
+	conway.UtxoValidateCertificateDeposits,
 	conway.UtxoValidateWithdrawals,
 	conway.UtxoValidateCommitteeCertificates,
 	UtxoValidateCCVotingRestrictions,
